@@ -80,9 +80,9 @@ func (t *Input) Write(w io.Writer, desc bool) (err error) {
 // Extend a type.
 func (t *Input) Extend(x Type) error {
 	if ix, ok := x.(*Input); ok { // Already checked so no need to report an error again.
-		for k, f := range ix.fields.dict {
+		for _, f := range ix.fields.list {
 			if err := t.fields.add(f); err != nil {
-				return fmt.Errorf("%w: field %s on %s", err, k, t.N)
+				return fmt.Errorf("%w: field %s on %s", err, f.N, t.N)
 			}
 		}
 	}
